@@ -228,6 +228,8 @@ def run(ck):
         r1(ck, F, name, exp, fn, car, twin, A, B)
         r2(ck, F, name, exp, car)
         r3(ck, F, name, exp, car, A)
+        if exp.get("ret") or exp.get("err"):
+            body_isolated(ck, F, name, exp, car, A)
         r4(ck, F, name, exp, car, A)
     r3_lib(ck, L)
 
@@ -262,6 +264,31 @@ def emits_event(F, path):
 def body_closures(F, car, A):
     """Inlined closure/future calls in the wrapper that are not the event macros' own dispatch closures."""
     return [x for x in A.inlined if x[0] == car.path and not emits_event(F, x[2])]
+
+
+def body_isolated(ck, F, name, exp, car, A):
+    """ret/err: the user's body lives in a closure / future of its own, so that an early `return` or a short-circuiting
+    `?` inside it ends only that closure and cannot skip the wrapper's ret/err events."""
+    key = "%s: the body is isolated from the ret/err epilogue (an early return cannot skip the events)" % name
+    marker_bodies = set()
+    for ns, bb, lab in A.token_sites:
+        marker_bodies.add(ns.rsplit(">", 1)[1] if ">" in ns else car.path)
+    event_bodies = set()
+    for x in [car] + F.closures_of(car):
+        for bb, t in x.calls():
+            r = t["callee"].get("resolved") or ""
+            if t["callee"].get("method") in ("call", "call_once", "call_mut") and emits_event(F, r):
+                event_bodies.add(x.path)
+            if t["callee"].get("path", "").startswith("tracing_core::event::Event::<'a>::") and not x.path.endswith("}") is False:
+                pass
+    both = sorted(marker_bodies & event_bodies)
+    if not event_bodies:
+        ck.bad("C17.R3", key, where(car.raw["sp"]), "no ret/err event site found in the expansion", fn=car.path)
+    elif both:
+        ck.bad("C17.R3", key, where(car.raw["sp"]), "the user's statements and the ret/err event sit in the same body (%s): `return`/`?` in the body leaves "
+               "through the wrapper and the event is never emitted" % ", ".join(b[len(car.path.split("::{closure")[0]):] or "fn" for b in both), fn=car.path)
+    else:
+        ck.ok("C17.R3", key, fn=car.path, detail="markers in %s; events in %s" % (sorted(x[len(car.path):] or "." for x in marker_bodies), sorted(x[len(car.path):] or "." for x in event_bodies)))
 
 
 def wrapper_value(ck, F, name, exp, car, A):
